@@ -48,7 +48,7 @@ type result struct {
 	Validations  int
 	Sequences    map[string]int // prefix length -> number of accepted prefixes explored
 	Classes      map[string]*classStat
-	Outcomes     map[string]int // "class | broken clauses | answer"
+	Outcomes     map[string]int        // "class | broken clauses | answer"
 	Violations   map[string]*violation // by signature
 	Reach        []reachRow
 	HonestFailed []string
